@@ -93,4 +93,27 @@ theorem bigNormalizeCoef128_exists (rb rs : Nat) (off : Int) (ab : Nat) (a : Lis
   · rw [if_pos hr]; exact ⟨_, rfl⟩
   · rw [if_neg hr]; exact normalizeCrossCoef_exists 128 rb rs off ab a hab1 hrb1
 
+theorem mapM_option_exists {α β : Type} (l : List α) (f : α → Option β) (h : ∀ x ∈ l, ∃ y, f x = some y) :
+    ∃ ys, l.mapM f = some ys := by
+  induction l with
+  | nil => exact ⟨[], rfl⟩
+  | cons x xs ih =>
+    obtain ⟨y, hy⟩ := h x (by simp)
+    obtain ⟨ys, hys⟩ := ih (fun z hz => h z (by simp [hz]))
+    exact ⟨y :: ys, by simp [List.mapM_cons, hy, hys]⟩
+
+theorem mapCoefs?_exists (n size : Nat) (f : Nat → Option (List Int)) (h : ∀ i, i < n → ∃ o, f i = some o) :
+    ∃ out, mapCoefs? n size f = some out := by
+  obtain ⟨ys, hys⟩ := mapM_option_exists (List.range n) f (fun i hi => h i (List.mem_range.mp hi))
+  exact ⟨_, by unfold mapCoefs?; rw [hys]; rfl⟩
+
+/-- **`vec_znx_normalize` / `vec_znx_big_normalize` on a column always return** (radices ≥ 1) -/
+theorem normalizeCol?_exists (rb rs : Nat) (off : Int) (a : Col) (ab n : Nat) (hab1 : 1 ≤ ab) (hrb1 : 1 ≤ rb) :
+    ∃ out, normalizeCol? rb rs off a ab n = some out :=
+  mapCoefs?_exists n rs _ (fun i _ => normalizeCoef_exists rb rs off ab _ hab1 hrb1)
+
+theorem bigNormalizeCol128?_exists (rb rs : Nat) (off : Int) (a : Col) (ab n : Nat) (hab1 : 1 ≤ ab) (hrb1 : 1 ≤ rb) :
+    ∃ out, bigNormalizeCol128? rb rs off a ab n = some out :=
+  mapCoefs?_exists n rs _ (fun i _ => bigNormalizeCoef128_exists rb rs off ab _ hab1 hrb1)
+
 end NormL
